@@ -17,6 +17,9 @@
                                          unrelated variable of the same name) and the source has a goto
                                          whose annotation differs from its label's type,
         VIOL class=capture-under-binder  when the syntactic detector [shadowing_risk] fires on the source,
+        VIOL class=call-to-main          (known finding) when some call targets `main` ([calls_main_prog]:
+                                         compile_main gives main no return continuation, the call
+                                         site passes one) - checked after capture-under-binder,
         VIOL class=semantic-mismatch     otherwise.  Tuples on which the source run
       does not end in a normal exit within the fuel (undefined arithmetic, stuck, out of fuel) are
       not compared (the property speaks about the defined behaviour). *)
@@ -83,6 +86,7 @@ Fixpoint ends_with (suffix s : string) : bool :=
 Definition witness_ok (name : string) (p : fcprog) : bool :=
   if ends_with "corpus/fun/capture1.sc" name then fcprog_eqb p capture_witness
   else if ends_with "corpus/fun/c02_unbound_covar.sc" name then fcprog_eqb p goto_witness
+  else if ends_with "corpus/fun/call_main_nontail.sc" name then fcprog_eqb p call_main_witness
   else true.
 
 Definition fun2core_case (i r : sexp) : verdict :=
@@ -112,6 +116,7 @@ Definition fun2core_case (i r : sexp) : verdict :=
                           if negb (effect_sequenced p) then VSkip ("unsequenced-mismatch " ++ name ++ " " ++ what)
                           else
                           VViol ((if shadowing_risk_prog p then "class=capture-under-binder " else
+                                  if calls_main_prog p then "class=call-to-main " else
                                   if core_unbound && goto_type_mismatch_prog p then "class=mistyped-goto-unbound " else
                                   "class=semantic-mismatch ")
                                  ++ name ++ " " ++ what)
